@@ -412,3 +412,16 @@ theorem C07_parse_perm_invariant (ext : Ext) (m m' : Msg) (hp : m'.entities.Perm
       exact hid.map _
 
 end Gtfs.Rt
+
+namespace Gtfs.Rt
+
+/-! non-vacuity: the demonstration message of C02 (a trip update of trip "A" naming vehicle "V", the
+    position of "V" on trip "A", an alert informing trip "B") meets every hypothesis of
+    `C07_parse_perm_invariant` -/
+example : FunctionalLinks (allItems .noExt (prepass .noExt demoMsg)) := functionalLinks_of_B _ (by decide)
+example : (allItems .noExt (prepass .noExt demoMsg)).length = 2 := by decide
+
+example : ConflictFreeTrips .noExt (prepass .noExt demoMsg) := conflictFreeTrips_of_nodup _ _ (by decide)
+example : ConflictFreeVehicles .noExt (prepass .noExt demoMsg) := conflictFreeVehicles_of_nodup _ _ (by decide)
+
+end Gtfs.Rt
